@@ -28,7 +28,10 @@ RULE = (
     "observable); distinct by (S_i digest, S_k digest, message, value, target). Part `wide`: the same oracle on directed histories "
     "whose 16-bit prefix VALUES span the 16-bit range at every bit alignment: an extensible message of about 2**k bits or an "
     "extensible array (of base types / of extensible messages) of about 2**k elements, k = 9..15, at bit offset 0..7, extended "
-    "by one step, followed by an older field."
+    "by one step, followed by an older field. Part `nested`: extensible containers inside extensible containers (extensible array of "
+    "an alias of an extensible array, directly or through a second alias; extensible message holding an extensible array, alone or "
+    "as element of an extensible array) where ONE new version grows the inner level, the outer level or both (and may append a field "
+    "to the inner message), at bit offset 0..7, older field behind; Python, C and Go decoders on every case."
 )
 ASSUMPTIONS = [
     "ref.py encoder and the projection are the specification (docs/language.rst, extensibility)",
@@ -36,7 +39,7 @@ ASSUMPTIONS = [
     "Go decoder executed by bpverif.gointerp (trusted for its subset); shapes of recorded Go findings (unused imports, "
     "foreign names in imported aliases) are not generated",
 ]
-REQUIRED_LABELS = ["wide:message", "wide:array", "wide:prefix_value~2^15", "step:grow_array", "step:append_field:base", "step:append_field:new_nested_msg", "followed_by_older_leaf", "target:c", "target:go", "chain3"]
+REQUIRED_LABELS = ["nested_ext:both_levels_grow_in_one_version", "nested_ext:row_alias", "nested_ext:array_of_msg_with_ext_array", "wide:message", "wide:array", "wide:prefix_value~2^15", "step:grow_array", "step:append_field:base", "step:append_field:new_nested_msg", "followed_by_older_leaf", "target:c", "target:go", "chain3"]
 
 
 @dataclass
@@ -47,6 +50,7 @@ class Case:
     rand: Dict[int, List[Any]]  # message index -> random values of the NEWEST version
     targets: List[str] = field(default_factory=list)
     wide: Optional[Any] = None  # (k, r, variant) of a directed wide-prefix history
+    nested: Optional[str] = None  # shape of a directed nested-extensible history
 
 
 @st.composite
@@ -162,6 +166,94 @@ def wide_histories(draw: Any) -> Case:
     return Case(versions, msgs, steps, rand, targets, wide=(k, r, variant))
 
 
+@st.composite
+def nested_ext_histories(draw: Any) -> Case:
+    """Extensible containers INSIDE extensible containers, extended at several levels at once: an extensible array
+    whose element is an alias of an extensible array (2-d) or an extensible message holding an extensible array,
+    where one new version grows the inner level, the outer level, or both; an older field follows."""
+    import copy
+
+    from ..model import Alias, Field, File, TArray, TBase, TRef, set_parents
+
+    f = File("nest", "nest")
+    box = Message("Box", draw(st.booleans()))
+    lead = draw(st.integers(0, 7))
+    if lead:
+        box.items.append(Field("lead", TBase("uint", lead), 1))
+    w = draw(st.sampled_from([1, 3, 5, 8, 12]))
+    a, b = draw(st.integers(1, 4)), draw(st.integers(1, 4))
+    shape = draw(st.sampled_from(["row_alias", "row_alias", "row_alias_of_alias", "msg_with_ext_array", "array_of_msg_with_ext_array"]))
+    if shape in ("row_alias", "row_alias_of_alias"):
+        inner = TArray(TBase("uint", w), a, True)
+        row = Alias("Row", inner)
+        f.items.append(row)
+        elem = TRef("Row", row)
+        if shape == "row_alias_of_alias":
+            grid = Alias("Grid", TArray(elem, b, True))
+            f.items.append(grid)
+            box.items.append(Field("rows", TRef("Grid", grid), 2))
+            outer = grid.type
+        else:
+            outer = TArray(elem, b, True)
+            box.items.append(Field("rows", outer, 2))
+    else:
+        cell = Message("Cell", True)
+        cell.items.append(Field("vals", TArray(TBase("uint", w), a, True), 1))
+        inner = cell.fields()[0].type
+        f.items.append(cell)
+        if shape == "msg_with_ext_array":
+            outer = None
+            box.items.append(Field("cell", TRef("Cell", cell), 2))
+        else:
+            outer = TArray(TRef("Cell", cell), b, True)
+            box.items.append(Field("cells", outer, 2))
+    box.items.append(Field("tail", TBase("uint", draw(st.sampled_from([8, 3, 13]))), 3))
+    f.items.append(box)
+    unit = Unit([f])
+    set_parents(unit)
+    msgs0 = unit_messages(unit)
+    versions, msgs, steps = [unit], [msgs0], []
+    for _ in range(draw(st.sampled_from([1, 1, 2]))):
+        u2, m2 = copy.deepcopy((versions[-1], msgs[-1]))
+        set_parents(u2)
+        box2 = [m for m in m2 if m.name == "Box"][0]
+        fld = [x for x in box2.fields() if x.name in ("rows", "cell", "cells")][0]
+        t = fld.type
+        # find the levels again in the copy
+        if shape == "row_alias_of_alias":
+            outer2 = t.target.type
+            inner2 = outer2.elem.target.type
+        elif shape == "row_alias":
+            outer2 = t
+            inner2 = t.elem.target.type
+        elif shape == "msg_with_ext_array":
+            outer2 = None
+            inner2 = t.target.fields()[0].type
+        else:
+            outer2 = t
+            inner2 = t.elem.target.fields()[0].type
+        what = draw(st.sampled_from(["both", "both", "inner", "outer"]))
+        applied = []
+        if what in ("both", "inner"):
+            inner2.cap += draw(st.integers(1, 3))
+            applied.append("grow_array:inner")
+        if what in ("both", "outer") and outer2 is not None:
+            outer2.cap += draw(st.integers(1, 3))
+            applied.append("grow_array:outer")
+        if shape in ("msg_with_ext_array", "array_of_msg_with_ext_array") and draw(st.booleans()):
+            cell2 = [m for m in m2 if m.name == "Cell"][0]
+            cell2.items.append(Field("more" + "x" * len(versions), evolve._base(draw), 2 + len(versions)))
+            applied.append("append_field:base")
+        if not applied:
+            continue
+        set_parents(u2)
+        versions.append(u2)
+        msgs.append(m2)
+        steps.append(applied)
+    rand = {j: [draw(S.values(m)) for _ in range(2)] for j, m in enumerate(msgs[-1])}
+    return Case(versions, msgs, steps, rand, ["py", "c", "go"], nested=shape)
+
+
 def describe(c: Case) -> Any:
     return {
         "versions": [render_bp.render_unit(u) for u in c.versions],
@@ -193,6 +285,10 @@ def run_case(c: Case, stats: Stats) -> None:
             stats.count("step:" + s)
     if len(c.versions) >= 3:
         stats.count("chain3")
+    if c.nested is not None:
+        stats.count("nested_ext:" + c.nested)
+        if any("grow_array:inner" in st_ and "grow_array:outer" in st_ for st_ in c.steps):
+            stats.count("nested_ext:both_levels_grow_in_one_version")
     if c.wide is not None:
         stats.count(f"wide:prefix_value~2^{c.wide[0]}")
         stats.count(f"wide:bit_offset_{c.wide[1]}")
@@ -326,4 +422,5 @@ def _diff(m: Message, got: Any, expect: Any) -> Any:
 PARTS = [
     HypPart("history", lambda tier: histories(), run_case, {"quick": 640, "thorough": 12800}, describe=describe),
     HypPart("wide", lambda tier: wide_histories(), run_case, {"quick": 96, "thorough": 1920}, describe=describe),
+    HypPart("nested", lambda tier: nested_ext_histories(), run_case, {"quick": 160, "thorough": 3200}, describe=describe),
 ]
